@@ -467,7 +467,7 @@ func runC17(c *Ctx) {
 						break
 					}
 					if ifi, ok := d.Instrs[len(d.Instrs)-1].(*ssa.If); ok {
-						onTrue := d.Succs[0] == cur || (d.Succs[0].Dominates(cur) && !d.Succs[1].Dominates(cur))
+						onTrue := onEdge(d, 0, cur)
 						if ifi.Cond == ssa.Value(cas) && onTrue {
 							casTrue = true
 						}
